@@ -89,6 +89,8 @@ def one_run(case, numrec, proto):
             r.pop("weight")
     conf = drive.analytic_conf(d, S0, stop, DT, rows, outvars=outvars, period=P * DT, numrec=numrec, layout=case["layout"],
                                field="const", params=dict(a=0.25 / DT, b=0.125 / DT, L=100.0), reversed_=rev, filename=proto, **kw, **kw_ibm)
+    if not numrec and (n + P) % 2 == 0:
+        conf["output"]["numrec"] = 0  # "no splitting" written out (the documented default value) instead of leaving the key out
     sub = dict(case, mode="single", numrec=numrec, proto=proto)
     tag = f"N={n} P={P} numrec={numrec} {case['layout']} pvars={case['pvars']} rev={rev} extra={case['extra']} proto={proto} late={case.get('late', False)}{' dieout' if case.get('dieout') else ''}"
     try:
